@@ -527,3 +527,175 @@ out:
 	}
 	return res
 }
+
+// runE2ESimple: the real cmd/simple-nfsd binary behind the fake port mapper,
+// driven over TCP with the boundary-dense generator and the specification
+// model of the simple server (30 files of at most 4096 bytes).  Every
+// request of the simple server is acknowledged durably, so the process is
+// killed (SIGKILL, alternately SIGINT) right after replies and restarted on
+// its disk file: all 30 files must read back exactly as the model has them.
+func runE2ESimple(seed uint64, cas int, nops int) *E2ERes {
+	res := &E2ERes{Stats: Counter{}}
+	bin := filepath.Join(verifDir, ".build", "simple-nfsd")
+	if _, err := os.Stat(bin); err != nil {
+		res.Inconclusive = append(res.Inconclusive, "e2e: server binary "+bin+" was not built")
+		return res
+	}
+	lk, err := e2eLock()
+	if err != nil {
+		res.Inconclusive = append(res.Inconclusive, "e2e: lock file: "+err.Error())
+		return res
+	}
+	defer lk.Close()
+	pm, err := startPmap()
+	if err != nil {
+		res.Inconclusive = append(res.Inconclusive, "e2e: port 111 cannot be bound for the fake port mapper: "+err.Error())
+		return res
+	}
+	defer pm.Close()
+	rng := NewRng(mix(seed, uint64(cas)+888888))
+	dir := filepath.Join(verifDir, ".build", "e2e")
+	os.MkdirAll(dir, 0755)
+	img := filepath.Join(dir, fmt.Sprintf("simple-%d-%d-%d.img", os.Getpid(), seed, cas))
+	logf := img + ".log"
+	os.Remove(img)
+	os.Remove(logf)
+	defer os.Remove(img)
+	viol := func(class, f string, a ...interface{}) {
+		if len(res.Viol) < 8 {
+			res.Viol = append(res.Viol, Violation{Class: class, Msg: "e2e(simple-nfsd): " + fmt.Sprintf(f, a...)})
+		}
+	}
+	var proc *e2eProc
+	var stub *rpcStub
+	start := func(when string) bool {
+		p, inc := startDaemon(bin, []string{"-disk", img}, pm, logf)
+		if inc != "" {
+			res.Inconclusive = append(res.Inconclusive, "e2e: "+inc)
+			return false
+		}
+		proc = p
+		if p.exited() {
+			viol("crash", "the server process ended while starting %s (%v); its output ends:\n%s", when, p.err, tailFile(logf, 1500))
+			return false
+		}
+		res.Instances++
+		st, err := newTCPStub(fmt.Sprintf("127.0.0.1:%d", p.port))
+		if err != nil {
+			if p.exited() {
+				viol("crash", "the server process ended while starting %s (%v); its output ends:\n%s", when, p.err, tailFile(logf, 1500))
+			} else {
+				res.Inconclusive = append(res.Inconclusive, "e2e: cannot connect to the server: "+err.Error())
+			}
+			return false
+		}
+		stub = st
+		if _, err := st.MountRoot(); err != nil {
+			viol("simple", "MOUNTPROC3_MNT %s: %v", when, err)
+			return false
+		}
+		return true
+	}
+	stop := func(kill bool) bool {
+		stub.Close()
+		if kill {
+			proc.cmd.Process.Signal(syscall.SIGKILL)
+			res.Kills++
+		} else {
+			proc.cmd.Process.Signal(syscall.SIGINT)
+		}
+		select {
+		case <-proc.done:
+		case <-time.After(180 * time.Second):
+			proc.cmd.Process.Kill()
+			<-proc.done
+			res.Inconclusive = append(res.Inconclusive, "e2e: simple-nfsd did not exit within 180 s of SIGINT")
+			return false
+		}
+		return true
+	}
+	if !start("on a blank disk file") {
+		return res
+	}
+	defer func() {
+		if proc != nil && !proc.exited() {
+			proc.cmd.Process.Kill()
+			<-proc.done
+		}
+		if len(res.Viol) == 0 {
+			os.Remove(logf)
+		}
+	}()
+	m := &simpleModel{}
+	readAll := func(when string) bool {
+		for i := uint64(2); i < simpleNInode; i++ {
+			ga := doSimple(stub, &sOp{K: OpGetattr, FH: simpleFh(i, 16)})
+			rd := doSimple(stub, &sOp{K: OpRead, FH: simpleFh(i, 16), Off: 0, Count: 4096})
+			if e := stub.Err(); e != nil {
+				viol("crash", "%s: transport error reading file %d: %v; server output ends:\n%s", when, i, e, tailFile(logf, 1500))
+				return false
+			}
+			if ga.Stat != stOK || rd.Stat != stOK || ga.Size != uint64(len(m.data[i])) || !bytes.Equal(rd.Data, m.data[i]) {
+				viol("simple", "%s: file %d: GETATTR status %d size %d, READ status %d returns %d bytes (hash %s); the specification has %d bytes (hash %s)", when, i, ga.Stat, ga.Size, rd.Stat, len(rd.Data), hashBytes(rd.Data), len(m.data[i]), hashBytes(m.data[i]))
+				return false
+			}
+		}
+		res.Walks++
+		return true
+	}
+	uid := byte(0)
+	every := 20 + rng.Intn(15)
+	var oplog []string
+	for i := 0; i < nops && len(res.Viol) == 0; i++ {
+		o := genSimpleOp(rng, i%4 == 0, &uid, func(inum uint64) uint64 {
+			if validSimpleInum(inum) {
+				return uint64(len(m.data[inum]))
+			}
+			return 0
+		})
+		childLog("e2e simple-nfsd req=%d %s", i, o)
+		r := doSimple(stub, o)
+		res.Ops++
+		if e := stub.Err(); e != nil || proc.exited() {
+			viol("crash", "request %d %s: transport error %v, process exited: %v (%v); server output ends:\n%s", i, o, e, proc.exited(), proc.err, tailFile(logf, 2500))
+			break
+		}
+		cls := "ok"
+		if r.Stat != stOK {
+			cls = "err"
+		}
+		res.Stats.Add(fmt.Sprintf("%s/%s/%s", o.K, cls, simpleArgClass(o)))
+		oplog = append(oplog, fmt.Sprintf("%s => %d", o, r.Stat))
+		if msg := m.apply(o, r); msg != "" {
+			viol("simple", "request %d %s: %s", i, o, msg)
+			break
+		}
+		if (i+1)%every == 0 {
+			kill := res.Restarts%3 != 2
+			childLog("e2e simple-nfsd restart kill=%v after request %d", kill, i)
+			if !stop(kill) {
+				break
+			}
+			if !start(fmt.Sprintf("on its disk file after restart %d (kill=%v)", res.Restarts+1, kill)) {
+				break
+			}
+			res.Restarts++
+			if !readAll(fmt.Sprintf("after restart %d (kill=%v, right after the reply to request %d %s)", res.Restarts, kill, i, o)) {
+				break
+			}
+		}
+	}
+	if len(res.Viol) == 0 && len(res.Inconclusive) == 0 {
+		readAll("at the end")
+		stop(false)
+	}
+	if len(oplog) > 10 {
+		res.Sample = oplog[:10]
+	} else {
+		res.Sample = oplog
+	}
+	if len(res.Viol) > 0 && len(oplog) > 0 {
+		res.Sample = append(res.Sample, oplog[maxInt(0, len(oplog)-30):]...)
+	}
+	return res
+}
